@@ -99,6 +99,10 @@ Fixpoint sortedb (t : list Z) : bool :=
 Definition xterm_cube_levels : list N := [0; 95; 135; 175; 215; 255]%N.
 Definition xterm_grey_levels : list N := map (fun k => (8 + 10 * N.of_nat k)%N) (seq 0 24).
 
+(* the palette entries themselves, linearised by the library's own conversion *)
+Definition xcube_z : list Z := map lin xterm_cube_levels.
+Definition xgreys_z : list Z := map lin xterm_grey_levels.
+
 Fixpoint all2 {A B} (f : A -> B -> bool) (x : list A) (y : list B) : bool :=
   match x, y with
   | [], [] => true
@@ -111,4 +115,6 @@ Definition tables_ok : bool :=
   sortedb cube_z && sortedb greys_z && Nat.eqb (length cube_z) 6 && Nat.eqb (length greys_z) 24
   && all2 close cube_z xterm_cube_levels && all2 close greys_z xterm_grey_levels
   && sortedb gray_levels_z && Nat.eqb (length gray_levels_z) 4 && Nat.eqb (length srgb_z) 256
-  && sortedb srgb_z.
+  && sortedb srgb_z
+  (* the four grey levels stand for luminance 0, 1/3, 2/3, 1 (within 0.01) *)
+  && all2 (fun l k => Z.abs (3 * l - k * luma_den) <=? 3 * (luma_den / 100)) gray_levels_z [0; 1; 2; 3].
